@@ -73,6 +73,12 @@ def harness(scenario, **kw):
             raise HarnessCrash(scenario, rc, out[-1500:])
         log(out[-4000:])
         raise ToolError(f"harness {scenario} produced no summary (rc={rc})")
+    if summ.get("wedged"):
+        # a simulated run whose thread never yielded again: the code under test spins (an await-free
+        # loop); like a crash this is data about the code, not a tool failure
+        raise HarnessCrash(scenario, "wedged",
+                           f"run(s) with seed {summ['wedged']} made no progress for {summ.get('wedge_s')} s of real time "
+                           f"(a task of the simulated networks spins without yielding); arguments {kw}")
     return summ
 
 
